@@ -135,7 +135,10 @@ def scenario(rotate):
         roles = dict(scen.DEFAULT_ROLES)
         roles["timestamp"] = ([4], 1)
         r2 = s.root(version=2, roles=roles, sigs=scen.valid([0]))
-        states = (("cur", (5, 5, 5, 5), 0), ("new", (6, 6, 6, 6), 1),
+        # the stored timestamp and snapshot are fast-forwarded (version 100); root v2 replaces the timestamp key only,
+        # so the stored snapshot still verifies under it: unless the interrupted cycle completes (or leaves to be
+        # repeated) the deletion of BOTH stored files, the restarted repository (version 6) stays refused
+        states = (("cur", (100, 100, 5, 5), 0), ("new", (6, 6, 6, 6), 1),
                   # after the rotation only the targets role (keys unchanged) is still protected by stored
                   # state: the replay is signed with the new online keys and has older targets
                   ("replay-older-targets", (7, 7, 4, 4), 1))
@@ -172,8 +175,10 @@ def model_histories(s, cyc, jobs):
 
 
 def run(chk):
-    chk.rule = ("for two scenarios (plain update; update that rotates the timestamp key and deletes stored files): "
-                "cycle 1 loads version 5 in one process; cycle 2 (version 6) runs in a fresh process under strace "
+    chk.rule = ("for two scenarios (plain update; update whose new root replaces the timestamp key only, after "
+                "fast-forwarded timestamp and snapshot versions were stored, so that both stored files must be deleted "
+                "for the restarted repository to be accepted): "
+                "cycle 1 loads version 5 (resp. 100) in one process; cycle 2 (version 6) runs in a fresh process under strace "
                 "with SIGKILL injected at the k-th write/rename system call for every k (the crash state is read "
                 "off the trace: how many datastore calls completed) and with ENOSPC injected into every datastore "
                 "write/rename; then replayed older repositories and the version-6 repository are loaded in fresh "
